@@ -234,6 +234,23 @@ def _linear_part(case, res):
             want = unit[f1] + unit[f2]
             if not np.all(np.abs(got - want) <= 8 * EPS * (np.abs(unit[f1]) + np.abs(unit[f2]))):
                 add("additivity", name, "T(e_f+e_g) != T(e_f)+T(e_g) for faces %s and %s" % (list(f1), list(f2)))
+    # TVD correction: linear in u at fixed upwind direction (4th argument), for a generic field
+    phi = g.cell(U.generic_array(g.fshape, tag=525, signed=True))
+    u1 = U.generic_face(g.mesh, tag=527, signed=True)
+    u2 = U.generic_face(g.mesh, tag=529, signed=True)
+    for lname in ("Koren", "SUPERBEE"):
+        FL = pf.fluxLimiter(lname)
+        T1 = np.asarray(pf.convectionTVDupwindRHSTerm(u1, phi, FL, updir), dtype=float)
+        T2 = np.asarray(pf.convectionTVDupwindRHSTerm(u2, phi, FL, updir), dtype=float)
+        T12 = np.asarray(pf.convectionTVDupwindRHSTerm(u1 + u2, phi, FL, updir), dtype=float)
+        Tm = np.asarray(pf.convectionTVDupwindRHSTerm(u1 * (-4.0), phi, FL, updir), dtype=float)
+        res["evals"] += 4
+        res["nontrivial"] += 2
+        sc = np.abs(T1) + np.abs(T2) + 1e-300
+        if not np.all(np.abs(T12 - (T1 + T2)) <= 1e-11 * np.max(sc)):
+            add("additivity", "convectionTVDupwindRHSTerm_fixed_direction", "TVD(u1+u2) != TVD(u1)+TVD(u2) at fixed upwind direction (%s)" % lname)
+        if not np.all(np.abs(Tm - (-4.0) * T1) <= 1e-11 * np.max(sc)):
+            add("homogeneity", "convectionTVDupwindRHSTerm_fixed_direction", "TVD(-4u) != -4 TVD(u) at fixed upwind direction (%s)" % lname)
     # source terms: linear in beta / gamma
     for name, build in (("linearSourceTerm", lambda c: dense(pf.linearSourceTerm(c))),
                         ("constantSourceTerm", lambda c: np.asarray(pf.constantSourceTerm(c), dtype=float))):
